@@ -18,7 +18,21 @@ CHECKS = {
 }
 NOT_YET = {}
 
+def load_fragments():
+    d = os.path.join(HERE, "manifest.d")
+    if os.path.isdir(d):
+        for f in sorted(os.listdir(d)):
+            if f.endswith(".json"):
+                frag = json.load(open(os.path.join(d, f)))
+                for pid, c in frag.items():
+                    if c.get("not_applicable"):
+                        NOT_YET[pid] = c["not_applicable"]
+                    else:
+                        CHECKS[pid] = c
+
+
 def main():
+    load_fragments()
     props = [json.loads(l) for l in open(os.path.join(VERIF, "properties.jsonl"))]
     checks, na = [], []
     for p in props:
